@@ -55,7 +55,7 @@ func prepDataVSF32(a Tensor, b interface{}, reuse Tensor) (dataA *storage.Header
 		dataReuse = reuse.hdr()
 	}
 
-	if a.RequiresIterator() || (reuse != nil && reuse.RequiresIterator()) {
+	if a.RequiresIterator() || (reuse != nil && (reuse.RequiresIterator() || !reuse.DataOrder().HasSameOrder(a.DataOrder()))) {
 		ait = a.Iterator()
 		if reuse != nil {
 			iit = reuse.Iterator()
@@ -189,8 +189,13 @@ func (e Float32Engine) Add(a Tensor, b Tensor, opts ...FuncOpt) (retVal Tensor, 
 	var hdrA, hdrB, hdrReuse *storage.Header
 	var dataA, dataB, dataReuse []float32
 
-	if hdrA, hdrB, hdrReuse, _, _, _, _, _, err = prepDataVV(a, b, reuse); err != nil {
+	var useIter bool
+	if hdrA, hdrB, hdrReuse, _, _, _, useIter, _, err = prepDataVV(a, b, reuse); err != nil {
 		return nil, errors.Wrapf(err, "Float32Engine.Add")
+	}
+	if useIter {
+		// the vector kernels below are only valid for contiguous data of one data order
+		return e.StdEng.Add(a, b, opts...)
 	}
 	dataA = hdrA.Float32s()
 	dataB = hdrB.Float32s()
